@@ -2,6 +2,7 @@ package main
 
 import (
 	"fmt"
+	"go/token"
 	"go/types"
 	"sort"
 	"strings"
@@ -241,6 +242,7 @@ func init() {
 		c.floor("preimage-coverage", 150)
 		c.needFixture("preimage-coverage")
 		c02SectionComplete(c)
+		c02NilResultOfCallback(c)
 		// all three resources in tipAndResourcesHash
 		if f := p.Func("core", "", "tipAndResourcesHash"); f != nil {
 			seen := map[string]bool{}
@@ -753,4 +755,65 @@ func c02SectionComplete(c *Ctx) {
 	if n < 4 {
 		c.und("section-complete", "core digest helpers", "", fmt.Sprintf("only %d per-section digest helpers found", n))
 	}
+}
+
+// c02NilResultOfCallback: a result that a callback is expected to fill in through a captured pointer variable is not
+// dereferenced unconditionally at the return: `var r *T; return *r, run(func() error { …; r = &v; return nil })` panics with
+// a nil dereference exactly when run (or the callback) fails — the error path of hash verification then kills the process
+// instead of rejecting the block (defect F27). Decided for the hashing/verification packages: no Return operand is a load
+// through a captured pointer variable that the function itself never assigns, unless a nil test of it dominates the return.
+func c02NilResultOfCallback(c *Ctx) {
+	p := c.P
+	n := 0
+	for _, fn := range p.sortedFuncs() {
+		pr := pkgRelOf(fn)
+		if !(pr == "core" || pr == "blockchain" || pr == "core/crypto") || fn.Parent() != nil || fn.Origin() != nil || len(fn.Blocks) == 0 || strings.HasSuffix(p.Pos(fnPos(fn)), "_test.go") {
+			continue
+		}
+		for _, ret := range returnsOf(fn) {
+			for _, r := range ret.Results {
+				d1, ok := r.(*ssa.UnOp)
+				if !ok || d1.Op != token.MUL {
+					continue
+				}
+				d0, ok := d1.X.(*ssa.UnOp)
+				if !ok || d0.Op != token.MUL {
+					continue
+				}
+				a, ok := d0.X.(*ssa.Alloc)
+				if !ok || !a.Heap {
+					continue
+				}
+				if _, isPtr := a.Type().Underlying().(*types.Pointer).Elem().Underlying().(*types.Pointer); !isPtr {
+					continue
+				}
+				captured, assignedHere := false, false
+				if refs := a.Referrers(); refs != nil {
+					for _, rr := range *refs {
+						switch x := rr.(type) {
+						case *ssa.MakeClosure:
+							captured = true
+						case *ssa.Store:
+							if x.Addr == ssa.Value(a) && !isNilConst(x.Val) {
+								assignedHere = true
+							}
+						}
+					}
+				}
+				if !captured || assignedHere {
+					continue
+				}
+				n++
+				guarded := false
+				for _, fct := range factsAt(ret.Ret) {
+					if b, isB := fct.Cond.(*ssa.BinOp); isB && (isNilConst(b.X) || isNilConst(b.Y)) {
+						guarded = true
+					}
+				}
+				c.check(guarded, "nil-result-of-callback", qname(fn), p.Pos(posOf(ret.Ret, fn)), "the captured result is tested before it is dereferenced", "the returned value is loaded through a pointer variable that only a callback assigns, without a nil/error test: when the callback (or the function running it) fails the dereference panics instead of the error being returned")
+			}
+		}
+	}
+	_ = n
+	c.needFixture("nil-result-of-callback")
 }
